@@ -9,7 +9,7 @@ from __future__ import annotations
 
 import z3
 
-from pyvc.prop import Unit
+from pyvc.prop import Unit, Bounded
 from pyvc.values import SV, STR, INT, BOOL, FRAC, TNT, TSeq, TEnum, TIntEnum, term, is_sym, fresh, fresh_term
 from pyvc.execu import HObj, NTVal, LoopSpec, yield_slot, seq_of_items
 from contracts import engine_abs as EA
@@ -166,7 +166,51 @@ def replay_time_notes(note_dicts, opt_name, hittable):
 from props.engine_common import Lookup, EngineVsStatement, CoalesceWarps, RetimeEvents
 
 UNITS = [TimeNotes(), Lookup("hittable"), CoalesceWarps(), RetimeEvents()]
-BOUNDED = [EngineVsStatement("hittable", k) for k in range(EngineVsStatement.PARTS)]
+
+
+class TimeNotesVsStatement(Bounded):
+    """time_notes on real note streams - among them streams whose beats start again (the second player of a routine chart),
+    which the deductive unit covers only as long as the loop has the shape its contract names"""
+    name = "time_notes-vs-statement"
+    function = "simfile.notes.timed.time_notes"
+
+    def bound(self, tier):
+        return ("every timeline with up to 2 events of the small grid (contracts/timeline.py) x 3 note streams (one player in beat order; two players, "
+                "the second starting again at beat 0; the same with ticks off the event grid) x 3 unhittable-note options")
+
+    def run(self, tier, seed):
+        import time
+        from contracts import timeline as TL
+        n, t, e = types()
+        from simfile.timing import Beat, TimingData
+        t0 = time.time()
+        T = n.NoteType
+        one = [n.Note(Beat(k, 2), k % 4, [T.TAP, T.MINE, T.HOLD_HEAD, T.TAP][k % 4]) for k in range(0, 8)]
+        two = [n.Note(Beat(b), c, T.TAP, 0) for b, c in ((0, 0), (1, 1), (3, 2))] + \
+              [n.Note(Beat(b), c, ty, 1, ks) for b, c, ty, ks in ((0, 3, T.TAP, None), (Beat(1, 2), 2, T.TAP, 4), (2, 1, T.MINE, None), (Beat(7, 2), 0, T.TAP, None))]
+        off = [n.Note(Beat(5, 3), 0, T.TAP, 0), n.Note(Beat(8, 3), 1, T.TAP, 0), n.Note(Beat(1, 3), 0, T.TAP, 1), n.Note(Beat(9, 4), 1, T.TAP, 1)]
+        cases, failures = 0, []
+        for tl in TL.configurations(tier, max_events=2):
+            td = TimingData(TL.to_simfile(tl))
+            engine = e.TimingEngine(td)
+            for stream in (one, two, off):
+                for opt in t.UnhittableNotes:
+                    cases += 1
+                    try:
+                        got = list(t.time_notes(stream, td, opt))
+                    except Exception as ex_:
+                        got = f"raised {type(ex_).__name__}: {ex_}"
+                    exp = expected_output(stream, engine, opt)
+                    if got != exp:
+                        failures.append(dict(input=dict(notes=[repr(x) for x in stream], option=str(opt), bpms=str(td.bpms), stops=str(td.stops),
+                                                        delays=str(td.delays), warps=str(td.warps)),
+                                             detail=f"time_notes returned {got!r}; the statement prescribes {exp!r}"))
+                        if len(failures) >= 3:
+                            return dict(cases=cases, failures=failures, seconds=time.time() - t0)
+        return dict(cases=cases, failures=failures, seconds=time.time() - t0)
+
+
+BOUNDED = [EngineVsStatement("hittable", k) for k in range(EngineVsStatement.PARTS)] + [TimeNotesVsStatement()]
 
 
 def witness_search(tier, seed):
@@ -174,6 +218,9 @@ def witness_search(tier, seed):
         r = EngineVsStatement("hittable", k).run("quick", seed)
         if r["failures"]:
             return r["failures"][0]
+    r = TimeNotesVsStatement().run("quick", seed)
+    if r["failures"]:
+        return r["failures"][0]
     return _notes_witness(tier, seed)
 
 
